@@ -48,17 +48,40 @@ CREATORS = [PLAN, "A", "B", "C"]
 
 def generate(ctx):
     from translator import gen_claims
+    from translator.astutil import TranslatorError
     text, facts = gen_claims.generate()
     ctx.write_gen("GenClaims.v", text)
     ctx.facts = facts
     ctx.stats["skeletons"] = facts["skeletons"]
+    ctx.stats["nglob_writes"] = [list(w) for w in facts["nglob_sites"]["writes"]]
+    # The generated file is complete and written (the correspondence keeps working on it); the set
+    # of statements that write the nglob table is tied separately and fails closed.
+    if facts["nglob_sites_error"]:
+        raise TranslatorError("nglob table writers: " + facts["nglob_sites_error"])
 
 
 # ---------------------------------------------------------------------------------------------
 # Requests: Python representation, execution on the implementation, Gallina literal
 # ---------------------------------------------------------------------------------------------
-# ("static", creator, [paths]) ("tree", creator, path) ("glob", step, pattern, [matches])
+# ("static", creator, [paths]) ("tree", creator, path) ("glob", step, pattern, [matches][, subs])
 # ("define", creator, label, inps, outs, vols) ("amend", step, inps, outs, vols)
+# subs: the substitution constraints of the named wildcards, a list of [name, sub-pattern] pairs.
+
+
+def glob_subs(rq):
+    """NamedGlob.subs of a glob request, sorted by name (the key of a registration is
+    (step, pattern, subs))."""
+    return sorted((str(a), str(b)) for a, b in (rq[4] if len(rq) > 4 else []))
+
+
+def gkey(pattern, subs):
+    """model/Claims.v gkey: the key of the stored regex in the abstract matcher."""
+    return pattern + "".join("\0" + n + "\0" + v for n, v in subs)
+
+
+def glob_regex(rq):
+    from stepup.core.nglob import convert_nglob_to_regex
+    return re.compile(convert_nglob_to_regex(rq[2], dict(glob_subs(rq))), re.DOTALL)
 
 
 def _find_step(w, label):
@@ -77,7 +100,7 @@ def apply_request(w, rq):
     elif kind == "tree":
         w.wf.register_static_tree(_find_step(w, rq[1]), rq[2])
     elif kind == "glob":
-        ng = NamedGlob(rq[2])
+        ng = NamedGlob(rq[2], dict(glob_subs(rq)))
         ng.extend(list(rq[3]))
         w.wf.register_nglob(_find_step(w, rq[1]), ng)
     elif kind == "define":
@@ -107,10 +130,18 @@ def dump_state(w):
     globs = w.db.execute(
         "SELECT n.label, g.pattern, g.regex, g.data FROM nglob g JOIN node n ON n.i = g.node "
         "WHERE NOT n.detached ORDER BY g.i").fetchall()
+    import json
+    from stepup.core.cattrs import json_converter
+    from stepup.core.nglob import NamedGlob
+    glob_rows = []
+    for label, pattern, _regex, data in globs:
+        ng = json_converter.structure(json.loads(data), NamedGlob)
+        glob_rows.append((label, pattern, sorted((str(a), str(b)) for a, b in ng.subs.items()),
+                          [str(f) for f in ng.files()], str(ng.pattern)))
     dup = w.db.execute(
         "SELECT label, count(*) FROM node WHERE kind = 'file' AND NOT detached GROUP BY label HAVING count(*) > 1"
     ).fetchall()
-    return {"claims": claims, "trees": trees, "globs": globs, "dup": dup}
+    return {"claims": claims, "trees": trees, "globs": globs, "dup": dup, "glob_rows": glob_rows}
 
 
 async def execute(reqs, dump_each=False):
@@ -165,7 +196,8 @@ def coq_req(rq):
     if k == "tree":
         return f"RqTree {coq_creator(rq[1])} {coq_str(rq[2])}"
     if k == "glob":
-        return f"RqGlob {coq_str(rq[1])} {coq_str(rq[2])} {coq_strs(rq[3])}"
+        subs = coq_list([f"({coq_str(n)}, {coq_str(v)})" for n, v in glob_subs(rq)])
+        return f"RqGlob {coq_str(rq[1])} {coq_str(rq[2])} {subs} {coq_strs(rq[3])}"
     if k == "define":
         return f"RqDefine {coq_creator(rq[1])} {coq_str(rq[2])} {coq_strs(rq[3])} {coq_strs(rq[4])} {coq_strs(rq[5])}"
     if k == "amend":
@@ -187,12 +219,15 @@ HEADER = (
     "Definition oeq (a : option msg) (b : option str) : bool := opt_str_eqb (option_map tag a) b.\n"
     "Fixpoint leq2 {A B} (e : A -> B -> bool) (a : list A) (b : list B) : bool :=\n"
     "  match a, b with [], [] => true | x :: a', y :: b' => e x y && leq2 e a' b' | _, _ => false end.\n"
+    "Definition grow_eqb (a b : str * (str * list str)) : bool :=\n"
+    "  str_eqb (fst a) (fst b) && str_eqb (fst (snd a)) (fst (snd b)) && list_eqb str_eqb (snd (snd a)) (snd (snd b)).\n"
     "Definition agree (tbl : list (str * list str)) (rs : list req) (exp : list (option str))\n"
-    "  (cl tr : list (str * (N * (N * str)))) : bool :=\n"
+    "  (cl tr : list (str * (N * (N * str)))) (gl : list (str * (str * list str))) : bool :=\n"
     "  let gm := table_match tbl in\n"
     "  let st := run_skip gm OW GR boot rs in\n"
     "  leq2 oeq (outcomes gm OW GR boot rs) exp && list_eqb row_eqb (claim_rows st) cl\n"
-    "  && list_eqb row_eqb (tree_rows st) tr.\n"
+    "  && list_eqb row_eqb (tree_rows st) tr\n"
+    "  && list_eqb grow_eqb (map (fun g => (g_step g, (g_key g, g_ms g))) (globs st)) gl.\n"
 )
 
 
@@ -211,14 +246,12 @@ def paths_of(rq):
 
 def match_table(reqs):
     """(pattern, [paths of the case that the stored regex fullmatches])."""
-    from stepup.core.nglob import convert_nglob_to_regex
-    pats = sorted({rq[2] for rq in reqs if rq[0] == "glob"})
+    keys = {}
+    for rq in reqs:
+        if rq[0] == "glob":
+            keys.setdefault(gkey(rq[2], glob_subs(rq)), glob_regex(rq))
     paths = sorted({p for rq in reqs for p in paths_of(rq)})
-    tbl = []
-    for pat in pats:
-        rx = re.compile(convert_nglob_to_regex(pat, {}))
-        tbl.append((pat, [p for p in paths if rx.fullmatch(p)]))
-    return tbl
+    return [(k, [p for p in paths if rx.fullmatch(p)]) for k, rx in sorted(keys.items())]
 
 
 def coq_case(reqs, outcomes, final):
@@ -229,7 +262,9 @@ def coq_case(reqs, outcomes, final):
     cl = coq_list([f"({coq_str(l)}, ({role if role is not None else 0}, ({ck}, {coq_str(cl_)})))"
                    for l, role, ck, cl_, _ in final["claims"]])
     tr = coq_list([f"({coq_str(l)}, (0, ({ck}, {coq_str(cl_)})))" for l, ck, cl_ in final["trees"]])
-    return f"agree {t} {rs} {exp} {cl} {tr}"
+    gl = coq_list([f"({coq_str(lbl)}, ({coq_str(gkey(pat, subs))}, {coq_strs(files)}))"
+                   for lbl, pat, subs, files, _ in final["glob_rows"]])
+    return f"agree {t} {rs} {exp} {cl} {tr} {gl}"
 
 
 # ---------------------------------------------------------------------------------------------
@@ -257,6 +292,11 @@ class Pool:
         })
         self.trees = sorted({d, d + "/", f"{d}/sub", f"{d}/sub/", sib, sib + "/"})
         self.patterns = sorted({f"{d}/*", "*.txt", f"{d}/*.txt", "*", f"{d}/**", f"{sib}/*", f"{d}/sub/*"})
+        # named wildcards with substitution constraints: one pattern text, several regexes
+        self.named = [("${*n}.txt", [[], [["n", d]], [["n", d + "*"]], [["n", "t*"]], [["n", "?"]]]),
+                      (d + "/${*n}", [[], [["n", leaf[0]]], [["n", "s*"]], [["n", "[xy]*"]]]),
+                      ("${*a}/${*b}", [[], [["a", d]], [["a", sib], ["b", "*"]], [["b", leaf[0]]]])]
+        self.glob_hist = []     # (step, pattern) of the registrations requested so far
         self.counter = 0
 
     def path(self):
@@ -277,11 +317,10 @@ class Pool:
             return r.choice([".stepup", ".stepup/sub", "./", "/"])
         return r.choice(self.trees)
 
-    def matches(self, pat):
+    def matches(self, pat, subs=()):
         """A plausible result of the client-side scan: matching pool files that 'exist', sometimes
         with a stray non-matching path (NamedGlob.extend drops it)."""
-        from stepup.core.nglob import convert_nglob_to_regex
-        rx = re.compile(convert_nglob_to_regex(pat, {}))
+        rx = glob_regex(("glob", None, pat, [], list(subs)))
         cand = [p for p in self.files if rx.fullmatch(p)]
         r = self.rng
         ms = [p for p in cand if r.random() < 0.6]
@@ -303,7 +342,19 @@ class Pool:
         if kind == "tree":
             return ("tree", creator, self.tree())
         if kind == "glob":
-            pat = r.choice(self.patterns)
+            x = r.random()
+            if x < 0.25 and self.glob_hist:
+                # the same step registers a pattern it has registered before (same or other subs)
+                creator, pat = r.choice(self.glob_hist)
+            elif x < 0.55:
+                pat = r.choice(self.named)[0]
+            else:
+                pat = r.choice(self.patterns)
+            self.glob_hist.append((creator, pat))
+            named = dict(self.named)
+            if pat in named:
+                subs = r.choice(named[pat])
+                return ("glob", creator, pat, self.matches(pat, subs), [list(x) for x in subs])
             return ("glob", creator, pat, self.matches(pat))
         if kind.startswith("define"):
             lbl = self.fresh_label() if r.random() < 0.9 else r.choice(known_steps)
@@ -361,11 +412,11 @@ def gen_pair(rng, k1, k2, same_creator=False):
             t = rng.choice([pool.d, pool.d + "/", pool.d, f"{pool.d}/sub", pool.sib])
             return ("tree", creator, t)
         if kind == "glob":
-            pat = rng.choice([f"{pool.d}/*", "*.txt", "*", f"{pool.d}/**", f"{pool.d}/*.txt"])
-            from stepup.core.nglob import convert_nglob_to_regex
-            rx = re.compile(convert_nglob_to_regex(pat, {}))
+            pat = rng.choice([f"{pool.d}/*", "*.txt", "*", f"{pool.d}/**", f"{pool.d}/*.txt", pool.d + "/${*n}"])
+            subs = rng.choice([[], [["n", "x*"]], [["n", "?"]]]) if "${*n}" in pat else []
+            rx = glob_regex(("glob", None, pat, [], subs))
             ms = [m for m in sorted({p, q}) if rx.fullmatch(m) and rng.random() < 0.5]
-            return ("glob", creator, pat, sorted(ms))
+            return ("glob", creator, pat, sorted(ms), subs) if subs else ("glob", creator, pat, sorted(ms))
         role = kind.split("-")[1]
         inps, outs, vols = [], [], []
         {"out": outs, "vol": vols, "inp": inps}[role].append(path)
@@ -419,6 +470,34 @@ def systematic_pairs():
     return out
 
 
+def directed_sequences():
+    """Directed scenarios for the mechanisms of the property record, no randomness.
+    register_nglob versus _raise_if_glob_match with SEVERAL registrations: a first registration G1,
+    a second one G2 (same or other step; same pattern with equal / other / no constraints, or another
+    pattern), and a product declared before, between or after them that G1, G2 or neither matches."""
+    pat = "${*name}.txt"
+    firsts = [("glob", "A", pat, [], [["name", "a*"]])]
+    seconds = [("glob", "A", pat, [], [["name", "b*"]]), ("glob", "A", pat, [], [["name", "a*"]]),
+               ("glob", "A", pat, []), ("glob", "B", pat, [], [["name", "b*"]]),
+               ("glob", "A", "b*.txt", []), ("glob", "A", pat, ["b0.txt"], [["name", "b*"]])]
+    out = []
+    n = 0
+    for g1 in firsts:
+        for g2 in seconds:
+            for path in ("a1.txt", "b1.txt", "c1.txt"):
+                for kind in ("define-out", "define-vol", "amend-out", "amend-vol"):
+                    n += 1
+                    outs, vols = ([path], []) if kind.endswith("out") else ([], [path])
+                    prod = (("define", "C", f"d{n}", [], outs, vols) if kind.startswith("define")
+                            else ("amend", "C", [], outs, vols))
+                    out.append([g1, g2, prod])
+                    if kind == "amend-out":
+                        out.append([g1, prod, g2])
+                        out.append([prod, g1, g2])
+                        out.append([g1, g2, g1, prod])
+    return out
+
+
 def nontrivial(reqs):
     seen_paths, seen_trees, seen_pats = set(), set(), []
     from stepup.core.nglob import convert_nglob_to_regex
@@ -431,7 +510,7 @@ def nontrivial(reqs):
                 t.startswith(u) or u.startswith(t) for u in seen_trees)
             seen_trees.add(t)
         elif rq[0] == "glob":
-            rx = re.compile(convert_nglob_to_regex(rq[2], {}))
+            rx = glob_regex(rq)
             hit = any(rx.fullmatch(p) for p in seen_paths)
             seen_pats.append(rx)
         else:
@@ -474,17 +553,116 @@ def invariant_violations(reqs, outcomes, final):
                     out.append(("inv:product-under-static-tree", f"{label} under {t}"))
                 elif not (ckind == 2 and clabel == t):
                     out.append(("inv:file-under-static-tree-not-owned-by-it", f"{label} under {t} creator {clabel}"))
-    products = {label: clabel for label, role, _, clabel, _ in final["claims"] if role in (ROLE_OUTPUT, ROLE_VOLATILE)}
-    import json
-    for step_label, pattern, regex, data in final["globs"]:
-        rx = re.compile(regex)
-        for p in products:
-            if rx.fullmatch(p):
-                recorded = p in _json_strings(json.loads(data))
-                sig = ("inv:glob-matches-product:unrecorded-match" if not recorded
-                       else "inv:glob-matches-product:recorded-match")
-                out.append((sig, f"pattern {pattern} of step {step_label} matches product {p} of {products[p]}"))
+    out.extend(registration_violations(reqs, outcomes, final))
     return out
+
+
+def _product_requests(reqs, outcomes):
+    """path -> index of the accepted request that declared it as an output / a volatile output."""
+    first = {}
+    for i, (rq, o) in enumerate(zip(reqs, outcomes)):
+        if o is not None or rq[0] not in ("define", "amend"):
+            continue
+        prods = (rq[4] + rq[5]) if rq[0] == "define" else (rq[3] + rq[4])
+        for p in prods:
+            first.setdefault(p, i)
+    return first
+
+
+def registration_violations(reqs, outcomes, final):
+    """The glob clause, judged against the HISTORY of accepted registrations and not only against
+    the rows that are (still) in the nglob table: no request of this layer removes a registration,
+    so every accepted register_nglob must still have its row, and neither a row nor a lost
+    registration may match an attached product. The signature names the circumstance:
+      order            product-first (register_nglob had to reject) / pattern-first
+                       (_raise_if_glob_match had to reject)
+      recorded         was the product among the recorded matches of the registration
+      row              is the registration's row still in the table
+      regs-of-pattern  how many registrations of this pattern text the step had made."""
+    out = []
+    regs = []      # (index, step, pattern, subs, regex, recorded matches)
+    for i, (rq, o) in enumerate(zip(reqs, outcomes)):
+        if rq[0] == "glob" and o is None:
+            rx = glob_regex(rq)
+            regs.append((i, rq[1], rq[2], glob_subs(rq), rx, sorted({m for m in rq[3] if rx.fullmatch(m)})))
+    have = {}
+    for lbl, pat, subs, files, _ in final["glob_rows"]:
+        have[(lbl, pat, tuple(map(tuple, subs)))] = have.get((lbl, pat, tuple(map(tuple, subs))), 0) + 1
+    want = {}
+    for i, step, pat, subs, _, _ in regs:
+        want.setdefault((step, pat, tuple(subs)), []).append(i)
+    lost = set()
+    for key, idxs in want.items():
+        missing = len(idxs) - have.get(key, 0)
+        if missing > 0:
+            # with equal keys the rows are indistinguishable: call the oldest ones lost
+            for i in idxs[:missing]:
+                lost.add(i)
+                later = [r for r in regs if r[0] > i and r[2] == key[1]]
+                if any(r[1] == key[0] and tuple(r[3]) != key[2] for r in later):
+                    circ = "same-step-registered-the-pattern-again-with-other-subs"
+                elif any(r[1] == key[0] for r in later):
+                    circ = "same-step-registered-the-pattern-again-with-equal-subs"
+                elif later:
+                    circ = "another-step-registered-the-pattern"
+                else:
+                    circ = "no-later-registration-of-the-pattern"
+                n = sum(1 for r in regs if r[1] == key[0] and r[2] == key[1])
+                out.append((f"inv:glob-registration-lost:{circ}:regs-of-pattern-by-step={min(n, 3)}",
+                            f"request {i} registered pattern {key[1]} subs {dict(key[2])} for step {key[0]} and was "
+                            f"accepted, no later request removes registrations, but the nglob table holds "
+                            f"{have.get(key, 0)} row(s) of this key instead of {len(idxs)}: {final['glob_rows']!r}"))
+    for key, n in have.items():
+        if n > len(want.get(key, [])):
+            out.append(("inv:glob-registration-unexpected-row",
+                        f"the nglob table holds {n} row(s) of {key!r}, accepted registrations: {len(want.get(key, []))}"))
+    products = {label: clabel for label, role, _, clabel, _ in final["claims"] if role in (ROLE_OUTPUT, ROLE_VOLATILE)}
+    declared_at = _product_requests(reqs, outcomes)
+    for i, step, pat, subs, rx, recorded in regs:
+        for p in sorted(products):
+            if not rx.fullmatch(p):
+                continue
+            at = declared_at.get(p)
+            order = "order-unknown" if at is None else ("product-first" if at < i else "pattern-first")
+            rec = "recorded-match" if p in recorded else "unrecorded-match"
+            row = "row-lost" if i in lost else "row-present"
+            sig = f"inv:glob-matches-product:{order}:{rec}:{row}"
+            if i in lost:
+                n = sum(1 for r in regs if r[1] == step and r[2] == pat)
+                sig += f":regs-of-pattern-by-step={min(n, 3)}"
+            out.append((sig, f"pattern {pat} subs {dict(subs)} registered by step {step} in request {i} (accepted) "
+                             f"matches product {p} of {products[p]} declared in request {at}"))
+    # rows that no accepted registration of this sequence explains are judged as they are
+    for lbl, pat, regex, _data in final["globs"]:
+        if not any(r[1] == lbl and r[2] == pat for r in regs):
+            rx = re.compile(regex, re.DOTALL)
+            for p in sorted(products):
+                if rx.fullmatch(p):
+                    out.append(("inv:glob-matches-product:row-without-registration",
+                                f"pattern {pat} of step {lbl} matches product {p} of {products[p]}"))
+    return out
+
+
+# Signatures of the open known finding D3 before the oracle named the circumstances. A precise
+# signature of D3's own witness family is printed under its old name until KNOWN_FINDINGS.json
+# lists the precise one; every other circumstance gets a new signature that D3 never matches.
+LEGACY_SIGNATURES = {
+    "inv:glob-matches-product:product-first:unrecorded-match:row-present": "inv:glob-matches-product:unrecorded-match",
+    "pair-asymmetry:glob+product:accepted-order=product-then-glob:unrecorded-match":
+        "pair-asymmetry:glob-after-planned-output-accepted",
+}
+
+
+def public_signature(sig):
+    old = LEGACY_SIGNATURES.get(sig)
+    if old is None:
+        return sig
+    try:
+        listed = {x for k in common.load_known() if k.get("property") == PID
+                  for x in (k.get("signatures") or [k.get("signature")])}
+    except Exception:  # noqa: BLE001
+        listed = set()
+    return sig if sig in listed else old
 
 
 def _json_strings(obj):
@@ -506,25 +684,33 @@ def plan_result(outcomes, base):
     return None
 
 
-def classify_pair(r1, r2, first_rejected_order):
-    """Name the known shapes of asymmetry precisely; anything else gets a generic signature."""
+def classify_pair(r1, r2, accepted_first):
+    """Signature of a pair that is accepted in one order and rejected in the other. `accepted_first`
+    is the request that comes first in the ACCEPTED order; the signature names the two kinds, the
+    accepted order and, for the shapes with two code paths, the circumstance that decides."""
+    first, second = (r1, r2) if accepted_first is r1 else (r2, r1)
     kinds = {r1[0], r2[0]}
     if r1[0] == "tree" and r2[0] == "tree" and r1[1] == r2[1]:
-        t1, t2 = r1[2].rstrip("/") + "/", r2[2].rstrip("/") + "/"
-        if t1 != t2 and (t1.startswith(t2) or t2.startswith(t1)):
+        t1, t2 = first[2].rstrip("/") + "/", second[2].rstrip("/") + "/"
+        if t1 != t2 and t2.startswith(t1):
+            # accepted: parent then child (the child is a no-op); rejected: child then parent
             return "pair-asymmetry:same-creator-nested-trees-child-first-rejected"
-    for a, b in ((r1, r2), (r2, r1)):
-        if a[0] == "glob" and b[0] in ("define", "amend"):
+    for g, b in ((r1, r2), (r2, r1)):
+        if g[0] == "glob" and b[0] in ("define", "amend"):
             prods = (b[4] + b[5]) if b[0] == "define" else (b[3] + b[4])
-            from stepup.core.nglob import convert_nglob_to_regex
-            rx = re.compile(convert_nglob_to_regex(a[2], {}))
-            if any(rx.fullmatch(p) and p not in a[3] for p in prods):
-                return "pair-asymmetry:glob-after-planned-output-accepted"
-        if a[0] == "tree" and b[0] in ("define", "amend", "static"):
-            t = a[2].rstrip("/") + "/"
-            if any(p + "/" == t for p in paths_of(b)):
+            rx = glob_regex(g)
+            hits = [p for p in prods if rx.fullmatch(p)]
+            if hits:
+                rec = "unrecorded-match" if any(p not in g[3] for p in hits) else "recorded-match"
+                order = "product-then-glob" if first is b else "glob-then-product"
+                return f"pair-asymmetry:glob+product:accepted-order={order}:{rec}"
+    for t_rq, b in ((r1, r2), (r2, r1)):
+        if t_rq[0] == "tree" and b[0] in ("define", "amend", "static"):
+            t = t_rq[2].rstrip("/") + "/"
+            if any(p + "/" == t for p in paths_of(b)) and first is b:
                 return "pair-asymmetry:tree-after-file-at-tree-path-accepted"
-    return "pair-asymmetry:" + "+".join(sorted(kinds))
+    return ("pair-asymmetry:" + "+".join(sorted(kinds)) + ":accepted-order="
+            + kind_of(first).split("-")[0] + "-then-" + kind_of(second).split("-")[0])
 
 
 def kind_of(rq):
@@ -562,6 +748,9 @@ def _collect(ctx):
     seqs = []
     for rq_list in CORPUS:
         seqs.append(rq_list)
+    for rq_list in directed_sequences():
+        seqs.append(rq_list)
+        ctx.count("directed_sequences")
     nseq = ctx.scale(500, 6000)
     for _ in range(nseq):
         seqs.append(gen_sequence(rng, rng.randint(1, 6)))
@@ -664,6 +853,7 @@ def oracle(ctx):
     reported = set()
 
     def report(sig, name, detail, witness):
+        sig = public_signature(sig)
         if sig in reported:
             return
         reported.add(sig)
@@ -690,7 +880,7 @@ def oracle(ctx):
         pa, pb = plan_result(a[0], base), plan_result(b[0], base)
         witness = {"prefix": prefix, "r1": r1, "r2": r2, "r1_then_r2": a[0][base:], "r2_then_r1": b[0][base:]}
         if (pa is None) != (pb is None):
-            sig = classify_pair(r1, r2, None)
+            sig = classify_pair(r1, r2, r1 if pa is None else r2)
             ctx.count("oracle_" + sig)
             report(sig, "both-orders",
                    f"after prefix {prefix!r}: {r1!r} then {r2!r} gives {a[0][base:]!r} but the reverse order gives "
@@ -743,7 +933,7 @@ def replay(ctx, obj):
         print(" trees:", final["trees"])
         print(" model:", model_view(ctx, reqs))
         for sig, what in invariant_violations(reqs, outcomes, final):
-            ctx.add_failure("oracle", "ownership-invariant", sig, what, witness=w)
+            ctx.add_failure("oracle", "ownership-invariant", public_signature(sig), what, witness=w)
     elif "r1" in w:
         prefix = [tuple(r) for r in w["prefix"]]
         r1, r2 = tuple(w["r1"]), tuple(w["r2"])
@@ -752,7 +942,8 @@ def replay(ctx, obj):
         print(" r1;r2:", a[0][len(prefix):])
         print(" r2;r1:", b[0][len(prefix):])
         if (plan_result(a[0], len(prefix)) is None) != (plan_result(b[0], len(prefix)) is None):
-            ctx.add_failure("oracle", "both-orders", classify_pair(r1, r2, None),
+            acc = r1 if plan_result(a[0], len(prefix)) is None else r2
+            ctx.add_failure("oracle", "both-orders", public_signature(classify_pair(r1, r2, acc)),
                             f"{a[0][len(prefix):]!r} versus {b[0][len(prefix):]!r}", witness=w)
     else:
         oracle(ctx)
